@@ -23,7 +23,8 @@ def run(tier="quick", seed=0, replay=None):
     if replay:
         print(open(replay).read())
         return 1
-    core.lean_stage(chk, "C03")
+    core.lean_stage(chk, "C03", extra_props=["E2Eb"])
+    core.soft_bridge(chk)
     from harness import cover
     from harness import fingerprint
     fingerprint.direct(chk, ['ixai/explainer/sage/incremental.py', 'ixai/explainer/base.py', 'ixai/utils/tracker/multi_value.py'])
